@@ -213,6 +213,11 @@ def normal_pred(p):
     return bool(p) and p == p.lower() and p[0] not in "\"'" and not p.lower().endswith("_rel")
 
 
+def digits_safe(t):
+    """`\\d` agrees with the ASCII model: no digit outside 0-9"""
+    return all(not c.isdigit() or c in "0123456789" for c in t)
+
+
 def lnk_kind(l):
     return "none" if l is None or l.type == Lnk.UNSPECIFIED else \
         {Lnk.CHARSPAN: "charspan", Lnk.CHARTSPAN: "chartspan", Lnk.TOKENS: "tokens", Lnk.EDGE: "edge"}[l.type]
@@ -733,7 +738,7 @@ INDENTS = [None, "true", 0, 1, 2, 3, 4]
 
 class C02(Check):
     pid = "C02"
-    quick_cases = 2500
+    quick_cases = 3000
     thorough_cases = 12000
     rule = ("distinct case JSON (structure x options x indent x API) with at least one node or link; "
             "decoder-only and predicate cases by their text")
@@ -865,6 +870,14 @@ class C02(Check):
         for p in PREDS + ODD_PREDS:
             yield {"kind": "pred", "p": cps(p)}
             count += 1
+        core = ["{", "]", "(", "<0:5>", "<", "\"a\"", "\"", ":", "/", "=", ";", "--", "->", "-", "x", "-5", "a-", ">", "'", " ", "\n"]
+        for a in self.LEX_PIECES:
+            yield {"kind": "lex", "text": cps(a)}
+            count += 1
+        for a in core:
+            for b in core:
+                yield {"kind": "lex", "text": cps(a + b)}
+                count += 1
         # long documents (the lexer's look-ahead buffer holds 1024 tokens), every run
         full = {"properties": True, "lnk": True}
         for shift in range(0, 12):
@@ -897,7 +910,11 @@ class C02(Check):
     def random_cases(self, rng, n, kinds=None):
         for _ in range(n):
             r = rng.random()
-            k = rng.choice(kinds) if kinds else ("rt" if r < 0.78 else "sd_dec" if r < 0.915 else "churn" if r < 0.92 else "pred")
+            k = rng.choice(kinds) if kinds else ("rt" if r < 0.70 else "lex" if r < 0.80 else "sd_dec" if r < 0.915
+                                                 else "churn" if r < 0.92 else "pred")
+            if k == "lex":
+                yield self.gen_lex(rng)
+                continue
             if k == "churn":
                 yield {"kind": "churn", "seed": rng.randrange(3, 10**6), "o": rng.choice(OPTS)}
                 continue
@@ -927,6 +944,42 @@ class C02(Check):
                             del t[min(i, len(t) - 1)]
                     base = "".join(t)
                 yield {"kind": "pred", "p": cps(base)}
+
+    LEX_PIECES = ["{", "}", "[", "]", "(", ")", "<0:5>", "<-1:-1>", "<@3>", "<1 2 3>", "<1  2>", "<", "<a>", "<1:>", "<1:2", "<:2>",
+                  "<@>", "<@-1>", "<1#2>", "<1#-2>", "< 1>", "<1 >", "<1:2:3>", "<12>", "<>", "<1:2>>", "<<1:2>", "<-1>", "<1 -2>",
+                  "\"a\"", "\"a\\\"b\"", "\"\\\\\"", "\"a\\\"", "\"", "\"\"", "\"a b\"", "\"<1:2>\"", ":", "/", "=", ";", "--", "->",
+                  "-", "<-", "-->", "->>", "---", "x", "ARG1", "_rain_v_1", "10000", "-5", "a-b", "a-", "-a", "a->b", "a--b", "--a",
+                  "'", "x'y", ">", " ", "  ", "\t", "\u3000", "\xa0", "é", "日本", "ß", "\n", "\r\n", "\x0c", "\u2028", "\x85",
+                  "\x1c", "\x1f", "\u200b", "\\", "a\\b", "top=1", "dmrs", ":ARG1/NEQ->", ":/EQ--", "10000:ARG1/NEQ -> 10001;",
+                  "10000 [_x_n_1<0:1>(\"c\") e A=b];", "\u0661", "#", "@", "&", "."]
+
+    def gen_lex(self, rng):
+        r = rng.random()
+        if r < 0.65:
+            n = rng.choice([1, 2, 3, 4, 6, 9])
+            sep = rng.choice(["", "", " ", ""])
+            return {"kind": "lex", "text": cps(sep.join(rng.choice(self.LEX_PIECES) for _ in range(n)))}
+        # a real encoding with blanks removed / doubled / characters touched
+        dj = gen_dmrs(rng, rng.choice([0.0, 0.0, 0.2]), max_nodes=3)
+        d = build(dj)
+        try:
+            t = list(simpledmrs.encode(d, indent=rng.choice([None, True, 1]), **rng.choice(OPTS)))
+        except Exception:
+            t = list("dmrs { }")
+        for _ in range(rng.choice([1, 2, 3, 5])):
+            if not t:
+                break
+            i = rng.randrange(len(t))
+            op = rng.random()
+            if op < 0.35 and t[i] in " \n":
+                del t[i]
+            elif op < 0.5:
+                t.insert(i, rng.choice([" ", "\n", "\t"]))
+            elif op < 0.75:
+                t[i] = rng.choice(list("<>-\"\\:/=;()[]{}' x1#@"))
+            else:
+                del t[i]
+        return {"kind": "lex", "text": cps("".join(t))}
 
     def gen_sd_dec(self, rng):
         """decoder-only: a real encoding with a few token-level edits (mostly invalid)"""
@@ -979,6 +1032,11 @@ class C02(Check):
             return {"graphs": len(ds), "chars": len(text)}
         if k == "churn":
             return {"n": 12}
+        if k == "lex":
+            try:
+                return {"ok": lex(uncps(case["text"]))}
+            except simpledmrs.DMRSSyntaxError:
+                return {"err": "DMRSSyntaxError"}
         if k == "sd_dec":
             text = uncps(case["text"])
             try:
@@ -1005,7 +1063,14 @@ class C02(Check):
             dec = guard(lambda: canon_dmrs(simpledmrs.decode(flat)))
         else:
             dec = guard(lambda: [canon_dmrs(d) for d in simpledmrs.loads(flat)])
-        res["sd"] = {"text": text.get("ok", text), "toks": toks, "dec": dec}
+        def lexall(t):
+            try:
+                return {"ok": lex(t)}
+            except simpledmrs.DMRSSyntaxError:
+                return {"err": "DMRSSyntaxError"}
+        indtext = uncps(text["ok"]) if "ok" in text else flat
+        res["sd"] = {"text": text.get("ok", text), "toks": toks, "dec": dec, "flat": cps(flat),
+                     "lexflat": lexall(flat), "lexindent": lexall(indtext)}
         res["x"] = [{"enc": guard(lambda d=d: tree_to_j(dmrx._encode_dmrs(d, o["properties"], o["lnk"]))),
                      "dec": guard(lambda d=d: canon_dmrs(dmrx._decode_dmrs(reparse(dmrx._encode_dmrs(d, o["properties"], o["lnk"])))))}
                     for d in ds]
@@ -1020,6 +1085,8 @@ class C02(Check):
         k = case["kind"]
         if k in ("longdoc", "churn"):
             return None
+        if k == "lex":
+            return {"op": "lex", "text": case["text"]}
         if k == "pred":
             return {"op": "pred", "p": case["p"]}
         if k == "sd_dec":
@@ -1052,11 +1119,16 @@ class C02(Check):
                 if r:
                     return r
             return None
+        if k == "lex":
+            if not digits_safe(uncps(case["text"])):
+                return None
+            return cmp("lex", expected_, answer)
         if k == "sd_dec":
             if any(not ascii_case_safe(uncps(t[1])) for t in lex(uncps(case["text"]))):
                 return None
             return cmp("sd_dec", expected_, answer)
         ds = [build(dj) for dj in case["ds"]]
+        single = case["single"]
         r = cmp("ctor", expected_["ctor"], answer["ctor"])
         if r:
             return r
@@ -1066,6 +1138,31 @@ class C02(Check):
         if all(lex_ok(d) and case_safe_sd(d) for d in ds) and expected_["sd"]["toks"] is not None:
             for f in ("toks", "dec"):
                 r = cmp("sd." + f, expected_["sd"][f], answer["sd"][f])
+                if r:
+                    return r
+            # the model's single-line layout of its token list is the text the real encoder writes
+            if all(n.type != "" for d in ds for n in d.nodes) and all(d.identifier != "" for d in ds):
+                r = cmp("sd.render", expected_["sd"]["flat"], answer["sd"]["render"])
+                if r:
+                    return r
+                if case["indent"] is not None and isinstance(expected_["sd"]["text"], list):
+                    r = cmp("sd.renderindent", expected_["sd"]["text"], answer["sd"]["renderindent"])
+                    if r:
+                        return r
+        # the character-level lexer model on the real texts (any text: inside or outside the lexical domain)
+        flat = uncps(expected_["sd"]["flat"])
+        if digits_safe(flat):
+            r = cmp("sd.lexflat", expected_["sd"]["lexflat"], answer["sd"]["lexflat"])
+            if r:
+                return r
+            if isinstance(expected_["sd"]["text"], list) and digits_safe(uncps(expected_["sd"]["text"])):
+                r = cmp("sd.lexindent", expected_["sd"]["lexindent"], answer["sd"]["lexindent"])
+                if r:
+                    return r
+            ntok = len(expected_["sd"]["lexflat"].get("ok", []))
+            if all(case_safe_sd(d) for d in ds) and ntok < 1000 and \
+                    (single or "ok" in expected_["sd"]["lexflat"] or True):
+                r = cmp("sd.dectext", expected_["sd"]["dec"], answer["sd"]["dectext"])
                 if r:
                     return r
         for c in ("x", "j", "p"):
@@ -1381,6 +1478,12 @@ class C02(Check):
                 inc("longdoc:graphs", res["graphs"])
             return
         if k == "churn":
+            return
+        if k == "lex":
+            if res is not None:
+                inc("lex:" + ("error" if "err" in res else "tokens%d" % min(len(res["ok"]), 9)))
+                for t in res.get("ok", []):
+                    inc("lex:class:" + t[0])
             return
         if k == "sd_dec":
             if res is not None:
